@@ -348,3 +348,29 @@ Proof.
   - assert (Hn : scm r !! k = None) by (unfold scm; rewrite E; apply lookup_empty).
     rewrite Hn. apply bool_decide_eq_true. unfold min_dim, scm. cbn [sc]. rewrite E. apply lookup_empty.
 Qed.
+
+(* law 118 means: the source is unchanged by mutating its clones; a value-semantics model meets it trivially
+   (that is why the clause is a law on the real objects and not a theorem about the model) *)
+Lemma dres_eqb_spec a b : dres_eqb a b = true <-> d_count a = d_count b /\ d_caps a = d_caps b.
+Proof. unfold dres_eqb. rewrite andb_true_iff, zeqb_true, bool_decide_eq_true. reflexivity. Qed.
+
+Theorem law_clone_independent_spec d before a1 a2 a3 :
+  law_clone_independent d before a1 a2 a3 = true <->
+  (d_count before = d_count d /\ d_caps before = d_caps d) /\
+  (d_count a1 = d_count before /\ d_caps a1 = d_caps before) /\
+  (d_count a2 = d_count before /\ d_caps a2 = d_caps before) /\
+  (d_count a3 = d_count before /\ d_caps a3 = d_caps before).
+Proof. unfold law_clone_independent. rewrite !andb_true_iff, !dres_eqb_spec. tauto. Qed.
+
+Theorem law_clone_independent_model d : law_clone_independent d d d d d = true.
+Proof. apply law_clone_independent_spec. tauto. Qed.
+
+Theorem law_sub_add_model r x : law_sub_add r x (sub r x) (add (sub r x) x) = true.
+Proof.
+  unfold law_sub_add. destruct (sc r) as [m|] eqn:E; [|reflexivity].
+  assert (H : sc r <> None) by (rewrite E; discriminate).
+  destruct (sub_add_pointwise r x H) as (H1 & H2 & H3).
+  rewrite !andb_true_iff. repeat split; try (apply zeqb_true; assumption).
+  - apply zeqb_true. apply sub_cpu.
+  - apply forallb_forall. intros k _. apply andb_true_iff. split; apply zeqb_true; [apply H3|apply sub_sget; exact H].
+Qed.
